@@ -58,6 +58,10 @@ CHECKS = {
             "None missing: for every operator value (12 variants x negate x all x limit x whitespace, 49 groups), every reference selection (every reference set of up to two selections in the thorough tier) and every candidate selection of a text of length 4 (6 thorough), if the extracted relation holds then one of the index ranges chosen by init_textseliters contains the candidate's begin (forward) or end (backward) - including selections touching the very end of the text, references in the second half, zero-width selections and negated operators. No extras: every yielded handle is guarded by refset.test with the iterator's own operator. Only Equals returns the reference: both directions carry the unconditional has_handle exclusion. Each once: per-reference iterators are de-duplicated, and every Vec::dedup() in the crate (21 sites) follows a total sort of the same vector.",
             "trusted: syn, the evaluator, the range model (checked structurally by C06.ITER), the relation model (proved against its definition by C13); result order and the Equals shortcut are not decided",
             "DESIGN.md section 4 C06, A7", "syn"),
+    "C14": ("other", "effect-ordering analysis over MIR: persistent-write call sites (field effects through &mut parameters, closed over the call graph, restricted to calls that receive the entry's own &mut state) paired with later fallible exits on a common CFG path; descent into reachable non-atomic functions",
+            "For each of the 13 mutating entry points (annotate, annotate_from_iter/file, insert_data, add_resource, add_dataset, StoreFor::insert, query_mut ...) the check enumerates every way an error can be returned after persistent state may have been written: pairs (writing call, later `?`/Err exit) inside the entry, and every reachable function that is itself non-atomic. The library has no rollback, so today's 80+ pairs are genuine and listed as known findings (StoreFor::insert pushes before inserted() can fail, annotate resolves the target and inserts data before the annotation, batches stop half-way); what is decided is that no *new* write-then-fail path appears: a new fallible step after a commit point, a write moved before a check, or a batch made streaming is reported.",
+            "trusts rustc MIR and the over-approximated call graph; 'may write' is an over-approximation (callers of writers are writers); observational equality after a failure is not decided beyond 'no write before the error'",
+            "DESIGN.md section 4 C14, A5", "mir"),
 }
 
 NA = {
